@@ -165,7 +165,7 @@ impl File {
         ensures fr_ro(*old(w), *final(w)),
             final(w).faults == old(w).faults + (if r is Err { 1nat } else { 0 }),
             r is Ok ==> meta_of_file(r->Ok_0, old(w).files[self.inode()]) && r->Ok_0.spec_kind() == NodeKind::File,
-            old(w).files[self.inode()].bytes.len() <= u64::MAX,
+            old(w).files[self.inode()].bytes.len() <= i64::MAX,   // off_t
     { unimplemented!() }
 
     /// K-read: read(2) at the descriptor's cursor.  EINTR transfers nothing and is not counted as a fault.
